@@ -24,6 +24,9 @@ pub fn name_pools() -> Vec<(Vec<&'static str>, Vec<&'static str>)> {
         (vec!["a", "a1", "a2", "A"], vec!["a", "a_1", "a_attr"]),
         (vec!["PqRs", "A", "Pq", "RsA", "PqRsA"], vec!["k"]),
         (vec!["e_mail", "iPhone", "x-ray", "tShirt", "a_b"], vec!["arrivée", "preisé", "ns:maß", "abcdeé", "e_mail"]),
+        // numbered siblings of names that have to be numbered themselves
+        (vec!["option", "option1", "Option", "Option1", "vec", "Vec1", "self", "Self1"], vec!["k", "k1", "k_1"]),
+        (vec!["row", "value", "Value", "RowValue1", "row_value", "RowValue"], vec!["id", "id1", "id_attr"]),
     ]
 }
 
@@ -187,7 +190,7 @@ pub fn run_docprop(ctx: &mut Ctx, p: DocProp) {
     ctx.meta.push(("evaluations", J::N(evaluations)));
     ctx.meta.push(("distinct_nontrivial", J::N(distinct.len() as i64)));
     ctx.meta.push(("rule", json::s(format!(
-        "documents as DOM trees serialised with random incidental detail: {}{} random sequences of 1-{} documents with a common root (14 fixed name pools and, for a third of the cases, a pool of random names incl. keywords, case/separator variants, prefixed, non-ASCII, concatenation traps; depth<=5, fan-out<=6); {}; non-trivial = at least 3 nodes, distinct by DOM sequence",
+        "documents as DOM trees serialised with random incidental detail: {}{} random sequences of 1-{} documents with a common root (16 fixed name pools and, for a third of the cases, a pool of random names incl. keywords, case/separator variants, prefixed, non-ASCII, concatenation traps; depth<=5, fan-out<=6); {}; non-trivial = at least 3 nodes, distinct by DOM sequence",
         exh_note, n_rand, p.max_docs, p.what))));
     ctx.meta.push(("histogram", hist.json()));
     ctx.meta.push(("samples", J::A(samples)));
@@ -251,7 +254,7 @@ pub fn c01(ctx: &mut Ctx) {
 pub fn c04(ctx: &mut Ctx) {
     let mut evals = vec![ev("bytes", "ev_bytes", "corr"), ev("wf", "or_wf", "oracle"), ev("reflects", "or_reflects", "oracle"), ev("hyp", "in_hyp_names", "hyp")];
     evals.insert(0, ev("tree", "ev_tree", "corr"));
-    run_docprop(ctx, DocProp { evals, opts: opts_presets, exhaustive: false, n_rand: (2500, 60000), pools: vec![3, 4, 5, 6, 7, 8, 9, 10, 11, 12], tweak: no_tweak, extra: None, max_docs: 3, with_chars: true, what: "adversarial name pools only; both presets x both sort options" });
+    run_docprop(ctx, DocProp { evals, opts: opts_presets, exhaustive: false, n_rand: (2500, 60000), pools: vec![3, 4, 5, 6, 7, 8, 9, 10, 11, 12, 14, 15], tweak: no_tweak, extra: None, max_docs: 3, with_chars: true, what: "adversarial name pools only; both presets x both sort options" });
 }
 pub fn c09(ctx: &mut Ctx) {
     let mut evals = corr_core();
@@ -260,7 +263,11 @@ pub fn c09(ctx: &mut Ctx) {
         // several new attributes / children in later occurrences: many attributes, wide fan-out
         g.max_kids = rng.range(3, 7);
         if g.attrs.len() < 5 {
-            g.attrs.extend(["k1", "k2", "k3"].iter().map(|s| s.to_string()));
+            for k in ["k1", "k2", "k3"] {
+                if !g.attrs.iter().any(|a| a == k) {
+                    g.attrs.push(k.to_string());
+                }
+            }
         }
     }
     run_docprop(ctx, DocProp { evals, opts: opts_qx_both, exhaustive: true, n_rand: (2000, 60000), pools: vec![], tweak, extra: None, max_docs: 4, with_chars: true, what: "renderings in pairs (Unsorted, XmlName); generator widened to many attributes/children appearing late" });
